@@ -116,10 +116,27 @@ pub trait GraphNameIndex: TermIndex {
 //
 
 /// A generic implementation of [`TermIndex`].
-#[derive(Clone, Debug, Default)]
+#[derive(Debug, Default)]
 pub struct SimpleTermIndex<I: Index> {
     t2i: HashMap<SimpleTerm<'static>, I>,
     i2t: Vec<SimpleTerm<'static>>,
+}
+
+impl<I: Index> Clone for SimpleTermIndex<I> {
+    fn clone(&self) -> Self {
+        // NB: the terms in self.i2t borrow their data from the keys of self.t2i (see ensure_index),
+        // so i2t must not be cloned as is: the terms of the clone must borrow from the clone's own keys.
+        let mut ret = SimpleTermIndex {
+            t2i: HashMap::with_capacity(self.t2i.len()),
+            i2t: Vec::with_capacity(self.i2t.len()),
+        };
+        for t in &self.i2t {
+            // re-inserting the terms in order gives each of them the same index as in self
+            ret.ensure_index(t.borrow_term())
+                .expect("the clone has room for as many terms as the original");
+        }
+        ret
+    }
 }
 
 impl<I: Index> SimpleTermIndex<I> {
